@@ -3,7 +3,7 @@
    s is the state it leads to and tr everything the probes P0..P3, the dispatcher, the noise
    handshake and the application observed.  No bound on the length of h.  c ranges over all options
    (reconnect, passive, ping) and over the code with / without the two network-layer guards.        *)
-From YV Require Import Common.Tac C16.C16Model C16.C16Proofs C16.C16Thms.
+From YV Require Import Common.Tac C16.C16Model C16.C16Proofs C16.C16Thms C16.C16Reconnect.
 
 (* one CONNECTED at every position, one auth event and one handshake per dispatcher-connected;
    no dispatcher is ever replaced while live *)
@@ -86,6 +86,57 @@ Theorem C16_auto_reconnect_only : forall c h s tr e, exec c init h = Some (s, tr
      recon s = true \/ (c_reconnect c = true /\ exists k, e = EStreamError k /\ k <> KConflict)).
 Proof. exact auto_reconnect_only_thm. Qed.
 Print Assumptions C16_auto_reconnect_only.
+
+(* the interface layer's reconnect bookkeeping, for whole histories.  auto_creates = dispatchers created
+   in reaction to events other than the application's connect request / call; b2n (recon s) = 1 while a
+   reconnect is pending.  From any reachable state s and any continuation h2: the connections opened by
+   the stack on its own plus the one still pending = the one that was pending at s plus one per
+   non-conflict stream error in h2 (none when the option is off); every created dispatcher is either
+   such an automatic one or answers a connect request. *)
+Theorem C16_auto_reconnect_exactly_once : forall c h s tr h2 s2 tr2,
+  exec c init h = Some (s, tr) -> exec c s h2 = Some (s2, tr2) ->
+  (auto_creates c s h2 + b2n (recon s2) =
+   b2n (recon s) + (if c_reconnect c then count_ev ev_reconnecting_error h2 else 0))%nat /\
+  countb is_create tr2 = (auto_creates c s h2 + req_creates c s h2)%nat.
+Proof. exact auto_reconnect_count_thm. Qed.
+Print Assumptions C16_auto_reconnect_exactly_once.
+
+(* from the start (nothing pending): no automatic connect without a preceding stream error, never with
+   the option off, never more than one per non-conflict stream error; holds for every prefix of every
+   history since every prefix is a history *)
+Theorem C16_no_auto_connect_without_stream_error : forall c h s tr, exec c init h = Some (s, tr) ->
+  (auto_creates c init h + b2n (recon s) =
+   if c_reconnect c then count_ev ev_reconnecting_error h else 0)%nat /\
+  countb is_create tr = (auto_creates c init h + req_creates c init h)%nat.
+Proof. exact auto_reconnect_count_init_thm. Qed.
+Print Assumptions C16_no_auto_connect_without_stream_error.
+
+(* a pending reconnect: the network is down, the DISCONNECTED of the stream error is still queued, the
+   loop run that delivers it opens exactly one connection and clears the flag; no other event opens a
+   connection or clears the flag meanwhile *)
+Theorem C16_pending_reconnect_runs_once : forall c h s tr, exec c init h = Some (s, tr) ->
+  recon s = true ->
+  ns s = NsDisconnected /\ enabled c s ELoop = true /\
+  countb is_create (snd (step c s ELoop)) = 1%nat /\
+  recon (fst (step c s ELoop)) = false /\ ns (fst (step c s ELoop)) = NsConnecting /\
+  (forall e, enabled c s e = true -> e <> ELoop ->
+     countb is_create (snd (step c s e)) = 0%nat /\ recon (fst (step c s e)) = true /\
+     ns (fst (step c s e)) = NsDisconnected).
+Proof. exact pending_reconnect_thm. Qed.
+Print Assumptions C16_pending_reconnect_runs_once.
+
+(* a disconnect request of the application, a login failure, a stream error without reconnect (conflict
+   or option off) and a socket error / peer close of a connection that is up or being established -
+   also when that connection is the automatic reconnect attempt - end in DISCONNECTED with nothing
+   pending, and the stack stays down and opens no connection until the application asks for one *)
+Theorem C16_session_end_stays_down : forall c h s tr e mid s1 tr1,
+  exec c init h = Some (s, tr) ->
+  ends_session c s e = true ->
+  exec c s (e :: mid) = Some (s1, tr1) ->
+  count_ev ev_connect mid = 0%nat ->
+  ns s1 = NsDisconnected /\ conn s1 = false /\ recon s1 = false /\ countb is_create tr1 = 0%nat.
+Proof. exact session_end_stays_down_thm. Qed.
+Print Assumptions C16_session_end_stays_down.
 
 Theorem C16_keepalive : forall c h s tr, exec c init h = Some (s, tr) ->
   (pq s = [] \/ exists x, pq s = [x] /\ (x + 1)%N = nping s /\ pth s = true /\ memN x (reg s) = true) /\
